@@ -1286,6 +1286,13 @@ func lispCanon(obj slip.Object) string {
 			f = 0
 		}
 		return "f:" + strconv.FormatFloat(f, 'g', -1, 64)
+	case *slip.Bignum:
+		return (*big.Int)(to).String()
+	case *slip.LongFloat:
+		if q, ok := new(big.Rat).SetString((*big.Float)(to).Text('g', -1)); ok {
+			return "big:" + q.RatString()
+		}
+		return "big:?"
 	case slip.String:
 		return strconv.QuoteToASCII(string(to))
 	case slip.Time:
@@ -1814,21 +1821,8 @@ func briefOf(n *Node) string {
 	return short(n.canon())
 }
 
-// heal works around a defect the check reports separately (finding
-// "valid-text-rejected-after-failed-parse"): a failed parse can leave the
-// pooled parser in a state that makes the next parses fail. Every case starts
-// with two throw-away parses of a root string, which clears that state, so
-// that one defect does not spill into the verdicts of unrelated cases.
-func heal() {
-	scope := slip.NewScope()
-	for i := 0; i < 2; i++ {
-		_, _ = sl.Eval(scope, `(make-bag "\"h\"")`)
-	}
-}
-
 func exec(x *fw.Ctx, c Case) {
 	defer sl.Reset()
-	heal()
 	switch c.Kind {
 	case "text":
 		execText(x, c)
@@ -1863,10 +1857,6 @@ func init() {
 		Gen:   gen,
 		Exec:  exec,
 		Batch: 1000,
-		// one P: the parser pool the bag functions draw from is per-P; with a
-		// single P the sequence of parsers a case sees is a function of the case
-		// list alone
-		Env: []string{"GOMAXPROCS=1"},
 		Assumptions: []string{
 			"the harness's Node model, JSON/SEN renderers and reference path model are the trusted oracle",
 			"set/remove through a location the JSONPath notation gives no meaning to (index out of range, member of an array, through a scalar) may fail or do anything that leaves unrelated locations alone; a call that returns normally must make the path readable",
